@@ -201,6 +201,7 @@ func check(c Case) (string, string, verdicts) {
 		tsRev.Results = []result.Result{result.ResultUnknown}
 	case "error":
 		tsRev.Err = errors.New("scripted timestamping validator error")
+		tsRev.ErrWithResults = c.Accuracy%2 == 1
 	}
 	level := kit.LevelFor("strict", map[string]string{"authenticity": "enforce", "expiry": "log", "authenticTimestamp": c.TSAction, "revocation": "log"}, false)
 	opts := kit.Options()
